@@ -378,6 +378,7 @@ def gen_desc(rnd, ident):
                 "lit_extent": rnd.random() < 0.3,
                 "lit_direction": rnd.random() < 0.3,
                 "shared_extent": rnd.random() < 0.2,
+                "hostile_names": rnd.random() < 0.25,
                 "seed": rnd.randint(0, 10 ** 6)}
     return d
 
@@ -453,6 +454,14 @@ def anchors():
        mesh=["adjacent_face"],
        refelem=["normals_to_horizontal_faces", "normals_to_vertical_faces",
                 "outward_normals_to_faces"])
+    # adjacent_face with every single reference-element property (nfaces_re_h
+    # is shared between the two groups and must be passed once)
+    for k, prop in enumerate(REFELEM):
+        mk("anc_mesh_ref1_%d" % k, "general",
+           [_s("gh_real"), _f("w1", "gh_inc")],
+           mesh=["adjacent_face"], refelem=[prop])
+    mk("anc_mesh_only", "general", [_s("gh_real"), _f("w1", "gh_inc")],
+       mesh=["adjacent_face"])
     mk("anc_cma_asm", "cma_asm",
        [_o("op", "gh_read", "any_space_1", "any_space_2"),
         _o("cma", "gh_write", "any_space_1", "any_space_2"), _f("w3"),
@@ -582,6 +591,24 @@ def render_algorithm(d):
             else:
                 nm = {"gh_real": "rs", "gh_integer": "is",
                       "gh_logical": "ls"}[a["dtype"]] + str(i)
+                if alg.get("hostile_names"):
+                    # a user variable named like a name the PSy layer would
+                    # otherwise pick for one of its own variables
+                    others = [j for j, b in enumerate(d["args"], 1)
+                              if b["t"] == "field"]
+                    cands = ["nlayers", "cell", "df", "mesh", "loop0_start",
+                             "ndf_w1", "undf_w2", "map_w1", "nfaces_re_h"]
+                    # (not f<j>_proxy: PSyclone declares that name twice -
+                    # a genuine defect, but of the declarations, outside
+                    # this property; noted in DESIGN.md)
+                    for j in others:
+                        cands += ["f%d_data" % j]
+                        if d["args"][j - 1].get("vec", 1) > 1:
+                            cands += ["f%d_%d_data" % (j, k) for k in
+                                      range(1, d["args"][j - 1]["vec"] + 1)]
+                    nm = rnd.choice(cands)
+                    if any(nm == c_ for c_ in call):
+                        nm = nm + "_u%d" % i
                 decls.append("%s :: %s" % (typ, nm))
                 call.append(nm)
         elif a["t"] == "field":
